@@ -11,9 +11,35 @@ pub fn response_of_len(len: usize) -> MethodResponse {
     r
 }
 
+/// an error response (of the given code) whose JSON text has exactly `len` bytes, if such a text exists
+pub fn error_response_of_len(len: usize, code: i32) -> Option<MethodResponse> {
+    use jsonrpsee_types::ErrorObjectOwned;
+    let base = MethodResponse::error(Id::Number(1), ErrorObjectOwned::owned(code, "", None::<()>)).as_json().get().len();
+    if len < base {
+        return None;
+    }
+    let r = MethodResponse::error(Id::Number(1), ErrorObjectOwned::owned(code, "m".repeat(len - base), None::<()>));
+    (r.as_json().get().len() == len).then_some(r)
+}
+
 /// args: {r0: accumulated length before (1, or >= 38), j: entry length (>= 36), max: limit}
-/// observes: accepted?, accumulated length after (via finish()).
+/// observes: accepted?, accumulated length after (via finish()). The entry is tried as a success and as error responses of several codes (-32008 among them):
+/// what the entry *is* must not matter, only its length.
 pub fn append(a: &Value) -> Value {
+    let first = append_with(a, None);
+    if first["violation"].as_bool().unwrap_or(false) || first["skipped"].as_bool().unwrap_or(false) {
+        return first;
+    }
+    for code in [-32008, -32011, -32603, 7] {
+        let r = append_with(a, Some(code));
+        if r["violation"].as_bool().unwrap_or(false) {
+            return r;
+        }
+    }
+    first
+}
+
+fn append_with(a: &Value, error_code: Option<i32>) -> Value {
     let (r0, j, max) = (u(a, "r0") as usize, u(a, "j") as usize, u(a, "max") as usize);
     let mut b = BatchResponseBuilder::new_with_limit(max);
     if r0 != 1 {
@@ -22,7 +48,14 @@ pub fn append(a: &Value) -> Value {
             return json!({"scenario":"c08_append","violation":false,"why":"pre-state not constructible","skipped":true});
         }
     }
-    let accepted = b.append(response_of_len(j)).is_ok();
+    let entry = match error_code {
+        None => response_of_len(j),
+        Some(c) => match error_response_of_len(j, c) {
+            Some(r) => r,
+            None => return json!({"scenario":"c08_append","violation":false,"why":"no error response of that length","skipped":true}),
+        },
+    };
+    let accepted = b.append(entry).is_ok();
     let fin = b.finish();
     let final_len = MethodResponse::from_batch(fin).as_json().get().len();
     let expect_accept = r0 + j + 1 <= max;
@@ -30,7 +63,7 @@ pub fn append(a: &Value) -> Value {
     let expect_len = if expect_accept { r0 + j + 1 } else { r0 };
     let len_ok = if !expect_accept && r0 == 1 { true } else { final_len == expect_len };
     let violation = accepted != expect_accept || !len_ok || (accepted && final_len > max);
-    json!({"scenario":"c08_append","observed":{"accepted":accepted,"final_len":final_len},"expected":{"accepted":expect_accept,"final_len":expect_len},
+    json!({"scenario":"c08_append","observed":{"accepted":accepted,"final_len":final_len,"entry_error_code":error_code},"expected":{"accepted":expect_accept,"final_len":expect_len},
            "violation":violation,"why": if violation {"append decision/length differs from limit arithmetic"} else {""}})
 }
 
